@@ -236,7 +236,15 @@ theorem pluginInit_sound {env : Env} (he : EnvOk env) {sch : TypedSchema} (hc : 
         apply List.filter_eq_self.2
         intro kv _
         simp [isExtern]
-      exact argsOk_of_parse hd totalOk_zero htot (by rw [hfil]; exact h)
+      have hparse : argParse sch.args env.fs 0 args = some vals := by
+        cases hp : argParse sch.args env.fs 0 args with
+        | none => simp [hp] at h
+        | some w =>
+          simp only [hp] at h
+          by_cases hr : postParseRejects sch w = true
+          · rw [if_pos hr] at h; exact absurd h (by simp)
+          · rw [if_neg hr] at h; exact h
+      exact argsOk_of_parse hd totalOk_zero htot (by rw [hfil]; exact hparse)
 
 /-- `compilePluginGeneric`: an instantiated plugin is valid and holds exactly what it was given -/
 theorem compilePlugin_sound {env : Env} (he : EnvOk env) {hook : Bool} {p : IRPlugin} {i : PluginInst}
